@@ -268,7 +268,12 @@ struct SkOut {
     lhs: Vec<f32>,
     rhs: Vec<f32>,
     cost: f32,
+    /// the plan on (support of mu) x (support of nu); a bucket the solver holds no potential for has no
+    /// plan entries: its row / column is zero
     plan: Vec<Vec<f32>>,
+    /// which buckets of the two supports the solver's potentials actually cover
+    lpresent: Vec<bool>,
+    rpresent: Vec<bool>,
 }
 fn run_sinkhorn(mu: &Histogram, nu: &Histogram, metric: &Metric) -> Option<SkOut> {
     run_sinkhorn_n(mu, nu, metric, 1)
@@ -280,9 +285,15 @@ fn run_sinkhorn_n(mu: &Histogram, nu: &Histogram, metric: &Metric, reps: usize) 
         for _ in 0..reps { sk = sk.minimize(); }
         let l = sk.verif_lhs();
         let r = sk.verif_rhs();
-        let plan = l.iter().map(|(x, _)| r.iter().map(|(y, _)| sk.verif_coupling(x, y)).collect()).collect();
+        let xs: Vec<Abstraction> = mu.verif_counts().iter().map(|e| e.0).collect();
+        let ys: Vec<Abstraction> = nu.verif_counts().iter().map(|e| e.0).collect();
+        let lpresent: Vec<bool> = xs.iter().map(|x| l.iter().any(|e| e.0 == *x)).collect();
+        let rpresent: Vec<bool> = ys.iter().map(|y| r.iter().any(|e| e.0 == *y)).collect();
+        let plan = xs.iter().enumerate().map(|(i, x)| ys.iter().enumerate().map(|(j, y)| {
+            if lpresent[i] && rpresent[j] { sk.verif_coupling(x, y) } else { 0.0 }
+        }).collect()).collect();
         let cost = sk.cost();
-        SkOut { lhs: l.iter().map(|e| e.1).collect(), rhs: r.iter().map(|e| e.1).collect(), cost, plan }
+        SkOut { lhs: l.iter().map(|e| e.1).collect(), rhs: r.iter().map(|e| e.1).collect(), cost, plan, lpresent, rpresent }
     }))
 }
 
@@ -303,7 +314,8 @@ fn sk_case_n(run: &mut Run, tag: &str, mu: &Histogram, nu: &Histogram, metric: &
         Some(o) => o,
     };
     // column sums in f32, in the order the model adds them
-    let cols32: Vec<f32> = (0..m).map(|j| out.plan.iter().map(|r| r[j]).sum::<f32>()).collect();
+    let cols32: Vec<f32> = (0..m).filter(|j| out.rpresent[*j])
+        .map(|j| out.plan.iter().enumerate().filter(|(i, _)| out.lpresent[*i]).map(|(_, r)| r[j]).sum::<f32>()).collect();
     let mut ans = String::from("ok L");
     for v in &out.lhs { ans.push(' '); ans.push_str(&fl(*v)); }
     ans.push_str(" R");
@@ -312,7 +324,7 @@ fn sk_case_n(run: &mut Run, tag: &str, mu: &Histogram, nu: &Histogram, metric: &
     for v in &cols32 { ans.push(' '); ans.push_str(&fl(*v)); }
     if n * m <= 256 {
         ans.push_str(" P");
-        for r in &out.plan { for v in r { ans.push(' '); ans.push_str(&fl(*v)); } }
+        for (i, r) in out.plan.iter().enumerate() { for (j, v) in r.iter().enumerate() { if out.lpresent[i] && out.rpresent[j] { ans.push(' '); ans.push_str(&fl(*v)); } } }
     }
     run.line(&op, &ans);
     run.count(&format!("sk:{}", tag.split('/').next().unwrap()));
@@ -324,6 +336,12 @@ fn sk_case_n(run: &mut Run, tag: &str, mu: &Histogram, nu: &Histogram, metric: &
     run.spec_checked += 1;
     let dm = dens(mu);
     let dn = dens(nu);
+    if let Some(j) = out.rpresent.iter().position(|p| !p) {
+        run.fail("sinkhorn-target-bucket-without-column", &short, &format!("a column for every target bucket (bucket {j} holds {} of the mass)", dn[j].1), "the plan has no column for it");
+    }
+    if let Some(i) = out.lpresent.iter().position(|p| !p) {
+        run.fail("sinkhorn-source-bucket-without-row", &short, &format!("a row for every source bucket (bucket {i} holds {} of the mass)", dm[i].1), "the plan has no row for it");
+    }
     let mut total = 0f64;
     let mut neg = false;
     for r in &out.plan { for &v in r { if !(v >= 0.0) || !v.is_finite() { neg = true; } total += v as f64; } }
@@ -445,6 +463,7 @@ fn main() {
     degenerate_suite(&mut run, &mut rng);
     stateful_suite(&mut run, &mut rng, if deep { 40 } else { 6 });
     maxsize_suite(&mut run, &mut rng, deep);
+    centroid_suite(&mut run, &mut rng, deep);
 
     // ---- Sinkhorn on learned abstractions with generated metrics
     let n_metrics = if deep { 120 } else { 24 };
@@ -637,7 +656,7 @@ fn main() {
     }
 
     run.rule = format!(
-        "minimize() applied 2 and 3 times to the same Heuristic / Sinkhorn coupling (same feasible answer each time, judged by the full oracle); mutate-then-re-measure sequences on the same Histogram objects (emd, absorb, emd; clone then absorb; increment/set between measurements; triangle through an absorbed histogram) for Percent and Learned; supports at the real maxima (129..144 turn buckets as source and target, 101 equity buckets); degenerate suite in every tier (point masses incl. buckets 0/50/100 and mass 1 vs 46, 1-vs-1, 1-vs-many, identical, far-apart disjoint blocks; all ordered pairs and all triples) through Metric::emd, Equity::variation, Sinkhorn and the greedy plan; {} generated metrics (Euclidean 2-D, line, random symmetric, clustered nearly-degenerate, discrete, one-far-pair) over 4..160 learned abstractions, each with {} Sinkhorn instances (support sizes 1..100; uniform/geometric/dominant/random/bimodal masses; every third also as a self-distance) and greedy instances (half with disjoint supports); Sinkhorn on river buckets; {} equity histogram triples (supports 1..101); exhaustive abstraction layout 4x4096; Histogram::from ordering. Exact OT (f64 min-cost flow, dual-certified) on every Sinkhorn/greedy instance. distinct = distinct op lines with support > 1",
+        "centroid-like histograms (mass 1e3..1e6, 20..100 buckets, geometric / power-law / few-heavy-many-single tails; as source, as target, centroid vs centroid; Percent and Learned); minimize() applied 2 and 3 times to the same Heuristic / Sinkhorn coupling (same feasible answer each time, judged by the full oracle); mutate-then-re-measure sequences on the same Histogram objects (emd, absorb, emd; clone then absorb; increment/set between measurements; triangle through an absorbed histogram) for Percent and Learned; supports at the real maxima (129..144 turn buckets as source and target, 101 equity buckets); degenerate suite in every tier (point masses incl. buckets 0/50/100 and mass 1 vs 46, 1-vs-1, 1-vs-many, identical, far-apart disjoint blocks; all ordered pairs and all triples) through Metric::emd, Equity::variation, Sinkhorn and the greedy plan; {} generated metrics (Euclidean 2-D, line, random symmetric, clustered nearly-degenerate, discrete, one-far-pair) over 4..160 learned abstractions, each with {} Sinkhorn instances (support sizes 1..100; uniform/geometric/dominant/random/bimodal masses; every third also as a self-distance) and greedy instances (half with disjoint supports); Sinkhorn on river buckets; {} equity histogram triples (supports 1..101); exhaustive abstraction layout 4x4096; Histogram::from ordering. Exact OT (f64 min-cost flow, dual-certified) on every Sinkhorn/greedy instance. distinct = distinct op lines with support > 1",
         n_metrics, per_metric, n_eq);
     run.finish();
 }
@@ -789,6 +808,69 @@ fn maxsize_suite(run: &mut Run, rng: &mut Rng, deep: bool) {
     // the greedy plan at full size
     let (mu, nu) = (build_hist(&turn, &gen_counts(rng, k).0), build_hist(&turn, &gen_counts(rng, k).0));
     greedy_case(run, "maxsize", &mu, &nu, &metric, false);
+}
+
+/// centroid-like histograms: mass in the thousands to millions, 20..100 buckets, geometric / power-law
+/// tails down to single counts (what k-means centroids absorbed from thousands of points look like),
+/// as source, as target and centroid against centroid
+fn centroid_suite(run: &mut Run, rng: &mut Rng, deep: bool) {
+    let turn: Vec<Abstraction> = (0..110).map(|i| Abstraction::from((Street::Turn, i))).collect();
+    let river: Vec<Abstraction> = (0..=100).map(|i| Abstraction::from((Street::Rive, i))).collect();
+    let pts: Vec<(f64, f64)> = (0..turn.len()).map(|_| (rng.unit(), rng.unit())).collect();
+    let mut raw = BTreeMap::new();
+    for i in 0..turn.len() { for j in 0..i {
+        raw.insert(Pair::from((&turn[i], &turn[j])), (((pts[i].0 - pts[j].0).powi(2) + (pts[i].1 - pts[j].1).powi(2)).sqrt()) as f32);
+    } }
+    let metric = Metric::from(raw);
+    // built the way a centroid is: absorbing parts
+    let centroid = |rng: &mut Rng, uni: &[Abstraction], n: usize, top: usize, shape: usize| -> Histogram {
+        let sup = pick(rng, uni, n);
+        let ratio = 0.55 + 0.4 * rng.unit();
+        let alpha = 1.2 + 1.5 * rng.unit();
+        let counts: Vec<usize> = (0..n).map(|i| match shape % 3 {
+            0 => ((top as f64) * ratio.powi(i as i32)) as usize,
+            1 => ((top as f64) / ((i + 1) as f64).powf(alpha)) as usize,
+            _ => if i < 3 { top } else { 1 + rng.below(3) as usize },
+        }.max(1)).collect();
+        let mut h = Histogram::default();
+        let mut part = Histogram::default();
+        for (k, (a, c)) in sup.iter().zip(counts.iter()).enumerate() {
+            if k % 2 == 0 { h.set(*a, *c); } else { part.set(*a, *c); }
+        }
+        if part.verif_mass() > 0 { h.absorb(&part); }
+        h
+    };
+    let point = |rng: &mut Rng, uni: &[Abstraction]| -> Histogram {
+        let n = 1 + rng.below(12) as usize;
+        let sup = pick(rng, uni, n);
+        let mut v = vec![];
+        for _ in 0..46 { v.push(sup[rng.below(n as u64) as usize]); }
+        Histogram::from(v)
+    };
+    let rounds = if deep { 12 } else { 4 };
+    for r in 0..rounds {
+        let n1 = [20usize, 45, 70, 100][r % 4];
+        let n2 = [100usize, 60, 30, 24][r % 4];
+        let top = [2_000usize, 50_000, 400_000, 1_000_000][r % 4];
+        let c1 = centroid(rng, &turn, n1, top, r);
+        let c2 = centroid(rng, &turn, n2, top / 3 + 1000, r + 1);
+        let p = point(rng, &turn);
+        let spread = |h: &Histogram| { let cs = h.verif_counts(); let mx = cs.iter().map(|e| e.1).max().unwrap(); let mn = cs.iter().map(|e| e.1).min().unwrap(); mx / mn.max(1) };
+        run.count(&format!("centroid-like-spread={}", match spread(&c1).max(spread(&c2)) { 0..=99 => "<100:1", 100..=999 => "100-999:1", 1000..=99_999 => "1e3-1e5:1", _ => ">=1e5:1" }));
+        sk_case(run, "centroid-as-target", &p, &c1, &metric, true);
+        sk_case(run, "centroid-as-source", &c1, &p, &metric, true);
+        sk_case(run, "centroid-vs-centroid", &c1, &c2, &metric, true);
+        emd_case(run, "learned-centroid", &p, &c2, &metric);
+        greedy_case(run, "centroid", &c1, &c2, &metric, false);
+        // equity centroids through Metric::emd
+        let (ne1, ne2) = (20 + rng.below(81) as usize, 20 + rng.below(81) as usize);
+        let e1 = centroid(rng, &river, ne1, top, r + 2);
+        let e2 = centroid(rng, &river, ne2, top / 7 + 500, r);
+        let ep = point(rng, &river);
+        emd_case(run, "percent-centroid", &ep, &e1, &Metric::default());
+        emd_case(run, "percent-centroid", &e1, &e2, &Metric::default());
+        emd_case(run, "percent-centroid", &e2, &ep, &Metric::default());
+    }
 }
 
 /// degenerate shapes that must be present in every tier, for every distance
